@@ -10,7 +10,22 @@ import (
 
 // ---- PRNG: every random choice derives from one splitmix64 state ----
 
-type Gen struct{ s uint64 }
+type Gen struct {
+	s uint64
+	// unhashed: every second inserted value of a history is handed over without having been
+	// hashed before (ops setu/appu/chgu); chosen by a counter so that the random stream is unaffected
+	unhashed bool
+	nIns     int
+}
+
+// insOp returns the op name for inserting a value: name, or name+"u" for an unhashed insert.
+func (g *Gen) insOp(name string) string {
+	g.nIns++
+	if g.unhashed && g.nIns%2 == 0 {
+		return name + "u"
+	}
+	return name
+}
 
 func NewGen(seed uint64) *Gen { return &Gen{s: seed*0x9e3779b97f4a7c15 + 0x1234567} }
 
